@@ -43,6 +43,23 @@ Theorem spgemm_rows_sorted :
 Proof. exact spgemm_rows_sorted_proof. Qed.
 Print Assumptions spgemm_rows_sorted.
 
+(* (1') the COO x COO kernel _dot_coo_coo (same Gustavson loops, cells tagged with their row, no sort): it
+   returns, the buffers are exactly filled, the coordinates are pairwise distinct — the promise
+   has_duplicates=False that _dot passes to the COO constructor — and the cells mean the matrix product. *)
+Theorem spcoo_den :
+  forall (V : Type) (vzero : V) (vadd vmul : V -> V -> V), comm_semiring vzero vadd vmul ->
+  forall (n_row n_in n_col : Z) (a b : csr V),
+    csr_wfb n_row n_in a = true -> csr_wfb n_in n_col b = true ->
+    exists rows cols data,
+      dot_coo_coo V vzero vadd vmul n_row n_col a b = KOk (rows, cols, data)
+      /\ length rows = length data /\ length cols = length data
+      /\ NoDup (combine rows cols)
+      /\ forall i k, 0 <= i < n_row ->
+           coo_cells_den V vzero rows cols data i k
+           = np_matmul2 V vzero vadd vmul n_in (csr_den V vzero a) (csr_den V vzero b) i k.
+Proof. exact spcoo_den_proof. Qed.
+Print Assumptions spcoo_den.
+
 (* (3') csc @ csc through the transposition trick  a @ b = (b.T @ a.T).T  (the kernel is called on
    (out_shape[::-1], b..., a...)): the returned triple, read as the CSC form of the m x p result, is
    well formed and means the matrix product.  Needs the commutativity of the multiplication. *)
